@@ -32,6 +32,13 @@ def field_edit(rng, st):
     e("book no used entry", lambda: b0.update(lengths=[0, 0, 0], ordered=False, force_sparse=True))
     e("book length 32 entries", lambda: b0.update(lengths=[1] + [32] * 2 + [31, 30, 29, 28, 27, 26, 25, 24, 23, 22, 21, 20, 19, 18, 17, 16, 15, 14, 13, 12, 11, 10, 9, 8, 7, 6, 5, 4, 3, 2], ordered=False))
     e("book maptype 3", lambda: b0.update(maptype=3))
+    ne = len(b0["lengths"])
+    e("ordered book: second run larger than what is left", lambda: b0.update(runs=[max(1, ne // 2), ne], first_len=rng.choice([1, 2, 8, 20])), ne >= 2)
+    e("ordered book: second run = entries - 1", lambda: b0.update(runs=[2, ne - 1], first_len=rng.choice([2, 8, 20])), ne >= 4)
+    e("ordered book: run exceeds the code space of its length", lambda: b0.update(runs=[3, max(0, ne - 3)], first_len=1), ne >= 3)
+    e("ordered book: empty runs until length 33", lambda: b0.update(runs=[0] * 34, first_len=1))
+    e("ordered book: first length 32", lambda: b0.update(runs=[1, ne - 1], first_len=32), ne >= 2)
+    e("ordered book: exact runs", lambda: b0.update(runs=[1, 1] + ([2] if ne >= 4 else []) + [max(0, ne - (4 if ne >= 4 else 2))], first_len=1), ne >= 2)
     if vq:
         bv = s["books"][rng.choice(vq)]
         e("value book: quantlist too short", lambda: bv.update(quantlist=bv["quantlist"][:max(0, len(bv["quantlist"]) // 2)]))
